@@ -249,13 +249,13 @@ func (fr *frame) havocAll(st *State) {
 		for k, old := range olds {
 			if fc.e.writeOnce(k) && strings.HasPrefix(old.Sort, "(Array Int ") {
 				nw := st.heap[k]
-				fc.fact(fmt.Sprintf("(forall ((r Int)) (! (=> (select %s r) (= (select %s r) (select %s r))) :pattern ((select %s r))))", al.S, nw.S, old.S, nw.S))
+				fc.fact(fmt.Sprintf("(forall ((r Int)) (! (=> %s (= (select %s r) (select %s r))) :pattern ((select %s r))))", allocd(al.S, "r"), nw.S, old.S, nw.S))
 			}
 		}
 	}
 	if al.S != "" {
 		nw := st.heap["Alloc"]
-		fc.fact(fmt.Sprintf("(forall ((r Int)) (! (=> (select %s r) (select %s r)) :pattern ((select %s r))))", al.S, nw.S, nw.S))
+		fc.fact(allocMono(al.S, nw.S))
 	}
 }
 
@@ -503,9 +503,9 @@ func (fr *frame) applyContract(ct *FuncContract, f *ssa.Function, sig *types.Sig
 		}
 	}
 	if !ct.Pure && !ct.HeapFun {
-		al := fc.heapGet(st, "Alloc", arr(SInt, SBool))
+		al := fc.heapGet(st, "Alloc", SAlloc)
 		nw := fc.fresh("Alloc_c", al.Sort)
-		fc.fact(fmt.Sprintf("(forall ((r Int)) (! (=> (select %s r) (select %s r)) :pattern ((select %s r))))", al.S, nw.S, nw.S))
+		fc.fact(allocMono(al.S, nw.S))
 		st.heap["Alloc"] = nw
 	}
 	// results
@@ -637,6 +637,11 @@ func (fr *frame) inline(f *ssa.Function, args, bindings []Val, st *State, reach 
 	sub.parent = fr
 	if in != nil {
 		sub.callBlock = in.Block()
+	}
+	if fc.curFrame == fr {
+		sub.atBlock = fc.curBlock // where the caller is now (a deferred call or goroutine runs later than its statement)
+	} else {
+		sub.atBlock = sub.callBlock
 	}
 	if len(sub.loops) > 0 && (fc.c == nil || fc.c.InlineLoops[f.Name()] == nil) {
 		fc.unsupported("inlined function %s contains a loop (the caller's contract gives no `loop %s:<n>` invariants)", fnKey(f), f.Name())
@@ -1297,6 +1302,11 @@ func (fr *frame) atCallAsserts(name, alt string, pnames []string, ptypes []types
 		fc.atCallSeen[ac] = true
 		o := fc.oblig("assert", "atcall."+sanitizeName(ac.Callee)+"."+ac.Clause.Name, t.S, reach, in.Pos(), ac.Clause.Props)
 		o.Src = ac.Clause.Src
+		if len(ac.Clause.Props) == 0 {
+			// assert, then assume: what follows may rely on the assertion (it is an obligation of its
+			// own in every check that includes the function)
+			fc.factIf(reach, t.S)
+		}
 	}
 }
 
